@@ -7,8 +7,8 @@ import rewriters as R
 
 class C01(Prop):
     id = "C01"
-    driver = "Blocks"
-    lean_modules = ["Pfb.C01.Props"]
+    driver = "Compose"
+    lean_modules = ["Pfb.C01.Props", "Pfb.Compose.Output"]
     theorems = [
         "Pfb.C01.C01_frame_reformat",
         "Pfb.C01.C01_frame_tidy",
@@ -17,6 +17,9 @@ class C01(Prop):
         "Pfb.C01.prologue_take",
         "Pfb.C01.prologue_next",
         "Pfb.C01.C01_separator_text",
+        "Pfb.Compose.C01_output_embeds",
+        "Pfb.Compose.C01_output_embeds_reformat",
+        "Pfb.Compose.renderBlocks_embeds",
         "Pfb.Blocks.origStmts_preprocess",
         "Pfb.Blocks.origStmts_insertAfterComments",
     ]
@@ -61,10 +64,16 @@ class C01(Prop):
         return obs
 
     def model_requests(self, case, obs):
-        return R.block_requests(case, obs["trace"]) if "trace" in obs else []
+        if "trace" not in obs:
+            return []
+        b = R.block_requests(case, obs["trace"])
+        return b + R.text_requests(case, obs["trace"]) if b else []
 
     def compare(self, case, obs, resps):
-        return R.block_compare(case, obs["trace"], resps)
+        d = R.block_compare(case, obs["trace"], resps[:1])
+        if d is None and len(resps) > 1:
+            d = R.text_compare(case, obs["trace"], resps[1:2])
+        return d
 
     def oracle(self, case, obs):
         if "err" in obs:
